@@ -308,3 +308,90 @@ def r10e(ctx):
                             else:
                                 ctx.bad(cid, mod.loc(c2), f"`{ast.unparse(c1)[:90]}` and `{ast.unparse(c2)[:90]}` are the two halves of one operation but differ in {sorted(str(x) for x in (k1 ^ k2)) or 'positional arity'}: one direction ignores an option the other honours")
     ctx.floor("mirrored helper call pairs", n, 2)
+
+
+# ---------------------------------------------------------------------------------------------
+# R10f which side of which join kind may be broadcast: the two tables of Merge agree
+# ---------------------------------------------------------------------------------------------
+def _eval_how_side(term, how, side, side_var):
+    """evaluate a condition that only depends on self.how and the broadcast side; None if it depends on anything else"""
+    class T(ast.NodeTransformer):
+        def visit_Attribute(self, n):
+            if ast.unparse(n) == "self.how":
+                return ast.copy_location(ast.Constant(value=how), n)
+            if ast.unparse(n) == "self.broadcast_side":
+                return ast.copy_location(ast.Constant(value=side), n)
+            return self.generic_visit(n)
+
+        def visit_Name(self, n):
+            if n.id == side_var:
+                return ast.copy_location(ast.Constant(value=side), n)
+            return n
+
+    from sa.rules.util import clone
+
+    t = T().visit(clone(term))
+    if any(isinstance(x, (ast.Name, ast.Attribute, ast.Call)) for x in ast.walk(t)):
+        return None
+    try:
+        return bool(eval(compile(ast.fix_missing_locations(ast.Expression(body=t)), "<r10f>", "eval"), {"__builtins__": {}}, {}))
+    except Exception:  # noqa: BLE001
+        return None
+
+
+@rule(
+    "R10f",
+    ["C10", "C02"],
+    """BROADCAST TABLES AGREE: Merge decides twice which input of which join kind may be replicated to every partition of the
+    other one - _is_single_partition_broadcast (a one-partition input) and is_broadcast_join (the planner's choice for
+    small inputs). Replicating an input is only correct for join kinds that emit each row of the OTHER input's side once
+    per match and never emit unmatched rows of the replicated side; the kinds the planner may broadcast per side must
+    therefore be within the kinds the single-partition table allows for that side.""",
+)
+def r10f(ctx):
+    model = ctx.model
+    merge = model.cls("Merge", "_merge")
+    sp = model.method(merge, "_is_single_partition_broadcast", own=True).node
+    single = {"left": set(), "right": set()}
+    for r in (x for x in ast.walk(sp) if isinstance(x, ast.Return) and x.value is not None):
+        arms = r.value.values if isinstance(r.value, ast.BoolOp) and isinstance(r.value.op, ast.Or) else [r.value]
+        for arm in arms:
+            terms = [ast.unparse(t) for t, pol in flow.conj_terms(arm, True) if pol]
+            side = "left" if "self.left.npartitions == 1" in terms else "right" if "self.right.npartitions == 1" in terms else None
+            if side is None:
+                continue
+            for t, pol in flow.conj_terms(arm, True):
+                if pol and isinstance(t, ast.Compare) and ast.unparse(t.left) == "self.how" and isinstance(t.ops[0], ast.In) and isinstance(t.comparators[0], (ast.Tuple, ast.List, ast.Set)):
+                    single[side] |= {e.value for e in t.comparators[0].elts if isinstance(e, ast.Constant)}
+    if not single["left"] or not single["right"]:
+        raise AnalysisError("anchor vanished: per-side join kinds of Merge._is_single_partition_broadcast")
+    bj = model.method(merge, "is_broadcast_join", own=True).node
+    defs = flow.Defs(bj)
+    cond = next((n for n in ast.walk(bj) if isinstance(n, ast.If) and "self.how" in ast.unparse(n.test)), None)
+    if cond is None:
+        raise AnalysisError("anchor vanished: join-kind condition of Merge.is_broadcast_join")
+    side_vars = [d.name for d in defs.all if d.value is not None and ast.unparse(d.value) == "self.broadcast_side"]
+    side_var = side_vars[0] if side_vars else "broadcast_side"
+    kinds = set()
+    for t, pol in flow.conj_terms(cond.test, True):
+        if pol and isinstance(t, ast.Compare) and ast.unparse(t.left) == "self.how" and isinstance(t.ops[0], ast.In) and isinstance(t.comparators[0], (ast.Tuple, ast.List, ast.Set)):
+            kinds |= {e.value for e in t.comparators[0].elts if isinstance(e, ast.Constant)}
+    if not kinds:
+        raise AnalysisError("anchor vanished: `self.how in (...)` of Merge.is_broadcast_join")
+    ctx.info("join kinds a one-partition input may be broadcast for", {k: sorted(v) for k, v in single.items()})
+    for side in ("left", "right"):
+        allowed = set()
+        for how in sorted(kinds):
+            ok = True
+            for t, pol in flow.conj_terms(cond.test, True):
+                v = _eval_how_side(t, how, side, side_var)
+                if v is not None and v != pol:
+                    ok = False
+            if ok:
+                allowed.add(how)
+        extra = allowed - single[side]
+        cid = f"_merge.Merge.is_broadcast_join:{side}-side"
+        if extra:
+            ctx.bad(cid, merge.module.loc(cond), f"the planner may broadcast the {side} input of a {sorted(extra)} join, which _is_single_partition_broadcast does not allow for a one-partition {side} input ({sorted(single[side])}): every {side} row is emitted once per partition of the other input that has a match")
+        else:
+            ctx.ok(cid, merge.module.loc(cond), f"{sorted(allowed)} within {sorted(single[side])}")
